@@ -775,7 +775,13 @@ pub fn run(args: &Args) {
     sum.dist_max("coq_cases", shards.len() as u64);
     // ---- case file header: the trained encoders, defined and parsed once per file -----------------
     {
-        let mut h = String::from("From Coq Require Import Uint63.\nFrom ZV.Common Require Import Base Run.\nFrom ZV.C15 Require Import Model ModelCases.\nOpen Scope N_scope.\nDefinition case_t : Type := xcase.\n");
+        let mut h = String::from(concat!(
+            "From Coq Require Import Uint63.\nFrom ZV.Common Require Import Base Run.\nFrom ZV.C15 Require Import Model ModelHuff ModelCases.\nOpen Scope N_scope.\n",
+            "Definition case_t : Type := xcase.\n",
+            "Fixpoint le_bytes (k : nat) (w : N) : list N := match k with O => [] | S k' => w mod 256 :: le_bytes k' (w / 256) end.\n",
+            "Definition int_bytes (i : int) : list N := le_bytes 7 (Z.to_N (Uint63.to_Z i)).\n",
+            "Definition unpack_words (len : N) (ws : list int) : list N := firstn (N.to_nat len) (flat_map int_bytes ws).\n",
+            "Fixpoint mk_cenv (l : list (N * N * list int)) : cenv_t :=\n  match l with\n  | [] => []\n  | (k, len, ws) :: rest =>\n      match cenc_of_aux (unpack_words len ws) with Some e => (k, e) :: mk_cenv rest | None => mk_cenv rest end\n  end.\n"));
         let mut entries = vec![];
         for (&key, &p) in env_used.borrow().iter() {
             let aux = (ps[p].aux)();
